@@ -85,12 +85,17 @@ PROPS = {
         'kani': SKIPLIST_KANI,
         'explanation': 'rank-range arithmetic of ZRANGE/ZREVRANGE/ZRANK against spec_zrange with the skip list behind an assumed contract',
     },
+    'C05': {
+        'level': 'proof',
+        'verus': [{'group': 'srv_reply'}, {'group': 'srv_conn', 'units': ['conn_frame_step']}, {'group': 'srv_frame'}, {'group': 'c20_parser'}, {'group': 'c20_serializer'}],
+        'explanation': 'the three phases of process_connection, step by step: the parse loop takes every complete frame in order and records any parser error that is neither "no complete frame yet" nor a failed socket; a recorded violation becomes exactly one error reply after the replies to everything parsed before it, and the connection is closed; every parsed frame yields exactly one response appended in order, also when its handler fails; each response is handed to the write buffer exactly once, in order, NoResponse markers produce nothing; process_frame answers non-command frames with an error; framing of requests under arbitrary segmentation and of replies under arbitrary content is C20 (same units)',
+    },
     'C06': {
         'level': 'proof',
         # C06 = the safety obligations (overflow, bounds, slice ranges, unwrap, preconditions of callees such as the
         # allocation budget) of EVERY unit under contract, for all argument values
         'verus': [{'group': g, 'kinds': ['safety', 'requires-at-call', 'decreases', 'invariant']} for g in
-                  ['shard_core', 'shard_strings', 'shard_lists', 'shard_sweeper', 'shard_sets', 'shard_hashes', 'shard_zsets', 'cmd_strings', 'cmd_lists', 'cmd_sets', 'cmd_hashes', 'c03_lists_arith', 'c04_zset_arith', 'c19_scan', 'c20_parser', 'c20_serializer', 'c10_bgsave', 'c11_aof', 'c09_rdb', 'c13_blocking', 'c07_transactions', 'shard_flush', 'c14_pubsub', 'srv_strings', 'srv_zsets', 'cmd_scan', 'cmd_setops', 'exec_strings', 'exec_lists', 'exec_sets', 'exec_route', 'c16_pel', 'c12_parse']]
+                  ['shard_core', 'shard_strings', 'shard_lists', 'shard_sweeper', 'shard_sets', 'shard_hashes', 'shard_zsets', 'cmd_strings', 'cmd_lists', 'cmd_sets', 'cmd_hashes', 'c03_lists_arith', 'c04_zset_arith', 'c19_scan', 'c20_parser', 'c20_serializer', 'c10_bgsave', 'c11_aof', 'c09_rdb', 'c13_blocking', 'c07_transactions', 'shard_flush', 'c14_pubsub', 'srv_strings', 'srv_zsets', 'cmd_scan', 'cmd_setops', 'exec_strings', 'exec_lists', 'exec_sets', 'exec_route', 'c16_pel', 'c12_parse', 'srv_reply']]
                  # server-level units: their index/slice/overflow/unwrap/termination obligations only (their call preconditions are model permissions, not crashes)
                  + [{'group': g, 'kinds': ['safety', 'decreases']} for g in ['srv_exec', 'srv_frame', 'srv_conn', 'srv_auth', 'srv_push', 'srv_notify', 'srv_aof', 'srv_select', 'srv_wake', 'srv_pubsub']],
         'kani': STREAM_KANI[:1] + RDB_TOTAL_KANI,
